@@ -3,7 +3,7 @@
     HDF5OutputGroup.write_array / write_scalar / write_string / write_string_array / create_group ;
     taurex/binning/binner.py, fluxbinner.py, simplebinner.py, nativebinner.py : generate_spectrum_output ;
     taurex/util/hdf5.py : get_klass_args, load_generic_profile_from_hdf5). *)
-From Coq Require Import String List Bool Arith QArith.
+From Coq Require Import String List Bool Arith ZArith QArith.
 From TV Require Import Num ListNum.
 Import ListNotations.
 Local Open Scope string_scope.
@@ -90,16 +90,21 @@ Definition value_of_leaf (l : leaf) : list nat * list Q * list string :=
 
 
 (* ---------- (B) the spectrum dictionaries ---------- *)
-Inductive osize := Lighter | Light | Heavy.      (* OutputSize: lighter < light < heavy (and above) *)
+(* OutputSize is an integer scale (lighter = 1, light = 3, heavy = 6); the program also passes output_size - 3 for the
+   per-contribution dictionaries, so every integer is a possible size: binned optical depths above `lighter`,
+   native ones above `light` *)
 Inductive bkind := BNative | BSimple | BFlux.
+Definition lighter : Z := 1%Z.
+Definition light : Z := 3%Z.
+Definition heavy : Z := 6%Z.
 
 (* the names present, in insertion order *)
-Definition spectrum_keys (b : bkind) (sz : osize) : list string :=
+Definition spectrum_keys (b : bkind) (sz : Z) : list string :=
   match b with
   | BNative => ["native_wngrid"; "native_wlgrid"; "native_spectrum"] ++
-               match sz with Heavy => ["native_tau"] | _ => [] end
+               (if Z.ltb light sz then ["native_tau"] else [])
   | _ => ["native_wngrid"; "native_wlgrid"; "native_spectrum"; "binned_spectrum"; "native_wnwidth"; "native_wlwidth"] ++
-         match sz with Lighter => [] | Light => ["binned_tau"] | Heavy => ["binned_tau"; "native_tau"] end ++
+         (if Z.ltb lighter sz then "binned_tau" :: (if Z.ltb light sz then ["native_tau"] else []) else []) ++
          ["binned_wngrid"; "binned_wlgrid"; "binned_wnwidth"; "binned_wlwidth"]
   end.
 
